@@ -255,6 +255,10 @@ class gclmulchunker(ChunkerAdapter):
     alignment = 4
 
     def __init__(self, *, min_length=MIN_LENGTH, max_length=MAX_LENGTH):
+        for value in (min_length, max_length):
+            if not isinstance(value, int) or isinstance(value, bool) or value < 1:
+                raise ValueError(f'Chunk length must be a positive integer, not {value!r}')
+
         if min_length > max_length:
             raise ValueError(
                 f'Minimum length ({min_length}) is greater '
